@@ -249,6 +249,7 @@ __all__ = [
 
 import functools
 import os
+import pickle
 import sys
 import threading
 import types
@@ -684,6 +685,12 @@ class BaseProxy(_BaseProxy_):
             kind, result = server._callmethod(
                 None, self._token.id, methodname, args, kwds
             )
+            if kind == '#ERROR':
+                # `result` is the `RemoteException` wrapper. On its way to a client it is
+                # pickled, which turns it back into the original exception with the
+                # traceback attached; do the same on this shortcut. The wrapper
+                # itself can not be raised.
+                result = pickle.loads(pickle.dumps(result))
         else:
             try:
                 conn = self._tls.connection
